@@ -61,6 +61,16 @@ func tokenize(sourceCode string, cursor *Position) ([]Token, error) {
 			})
 		}
 		tokenString := s.TokenText()
+		if tokenString == "\ufeff" {
+			// the scanner only discards a byte order mark at the very beginning of the text
+			return nil, lisperror.NewLispError(errors.New("invalid byte order mark in the middle of the text"), &Position{
+				Module:   cursor.Module,
+				BeginRow: s.Pos().Line,
+				BeginCol: s.Pos().Column - 1,
+				Row:      s.Pos().Line,
+				Col:      s.Pos().Column - 1,
+			})
+		}
 		result = append(result, Token{
 			Value: tokenString,
 			Type:  tok,
